@@ -8,9 +8,10 @@
 // 8-15     int64     framecount
 // 16-23    int64     timestamp from time.Time.UnixNano()
 // 24-27    float32   pretriggerMean (from raw data, not from modeled pulse, really shouldn't be neccesary, just in case for now!)
-// 28-31    float32   residualStdDev (in raw data space, not Mahalanobis distance)
-// 32-Z     float32   the NumberOfBases model coefficients of the pulse projected in to the model
-// Z = 31+4*NumberOfBases
+// 28-31    float32   pretriggerDelta (change in the pretrigger level over the pretrigger period, from raw data)
+// 32-35    float32   residualStdDev (in raw data space, not Mahalanobis distance)
+// 36-Z     float32   the NumberOfBases model coefficients of the pulse projected in to the model
+// Z = 35+4*NumberOfBases
 package off
 
 import (
